@@ -180,11 +180,14 @@ func (c *Collection) CreateColumn(columnName string, column Column) error {
 		return fmt.Errorf("column: unable to create column '%s', already exists", columnName)
 	}
 
-	// Grow the column to the current capacity
-	capacity := uint32(atomic.LoadUint64(&c.count))
-	if c.opts.Capacity > int(capacity) {
-		capacity = uint32(c.opts.Capacity)
+	// Grow the column to the current capacity. The collection may be sparse, hence
+	// the column must cover the extent of the fill-list and not the count of rows.
+	capacity := uint32(c.opts.Capacity)
+	c.lock.RLock()
+	if size := uint32(len(c.fill)) << 6; size > capacity {
+		capacity = size - 1
 	}
+	c.lock.RUnlock()
 
 	column.Grow(capacity)
 	c.cols.Store(columnName, columnFor(columnName, column))
